@@ -4,6 +4,6 @@ ALL="C01 C02 C03 C04 C05 C06 C07 C08 C09 C10 C11 C12 C13 C14 C15 C16 C17 C18 C19
 /tmp/mw2/confirm_all.sh $ALL
 cd /verif
 todo=""
-for d in seeded/*-m3 seeded/*-m4 seeded/*-m5 seeded/*-m6 seeded/*-m7 seeded/*-m8 seeded/*-m9 seeded/*-m10 seeded/*-m11 seeded/*-m12; do [ -d $d ] && [ ! -f $d/meta.json ] && todo="$todo $(basename $d)"; done
+for d in seeded/*-m3 seeded/*-m4 seeded/*-m5 seeded/*-m6 seeded/*-m7 seeded/*-m8 seeded/*-m9 seeded/*-m10 seeded/*-m11 seeded/*-m12 seeded/*-m13 seeded/*-m14; do [ -d $d ] && [ ! -f $d/meta.json ] && todo="$todo $(basename $d)"; done
 [ -n "$todo" ] && python3 tools/run_seeded.py $todo
 echo PIPELINE-DONE $todo
